@@ -262,6 +262,43 @@ def _sink_temp_copies(fn: ast.AST) -> None:
     do_block(fn.body)
 
 
+def _merge_alias_temps(fn: ast.AST) -> bool:
+    """`__inlN_v = C(..)` .. `x = __inlN_v` where x is bound only there and the temporary is not mentioned after the copy: the
+    temporary IS x (the object a factory helper built and returned).  Returns True if anything changed."""
+    changed = False
+    stores: Dict[str, int] = {}
+    for n in ast.walk(fn):
+        if isinstance(n, ast.Name) and isinstance(n.ctx, (ast.Store, ast.Del)):
+            stores[n.id] = stores.get(n.id, 0) + 1
+    for owner in ast.walk(fn):
+        for fld in ("body", "orelse", "finalbody"):
+            blk = getattr(owner, fld, None)
+            if not (isinstance(blk, list) and blk and isinstance(blk[0], ast.stmt)):
+                continue
+            for k, st in enumerate(list(blk)):
+                if not (isinstance(st, ast.Assign) and len(st.targets) == 1 and isinstance(st.targets[0], ast.Name) and isinstance(st.value, ast.Name)
+                        and st.value.id.startswith("__inl") and stores.get(st.value.id) == 1 and stores.get(st.targets[0].id) == 1):
+                    continue
+                t, x = st.value.id, st.targets[0].id
+                # the temporary is created earlier in this block and never mentioned after the copy; x is not mentioned before it
+                idx = blk.index(st)
+                before = [n for b in blk[:idx] for n in ast.walk(b) if isinstance(n, ast.Name)]
+                after = [n for b in blk[idx + 1:] for n in ast.walk(b) if isinstance(n, ast.Name)]
+                everywhere = [n for n in ast.walk(fn) if isinstance(n, ast.Name)]
+                if any(n.id == t for n in after) or any(n.id == x for n in before):
+                    continue
+                if sum(1 for n in everywhere if n.id == t) != sum(1 for n in before if n.id == t) + 1:
+                    continue
+                if sum(1 for n in everywhere if n.id == x) != sum(1 for n in after if n.id == x) + 1:
+                    continue
+                for n in before:
+                    if n.id == t:
+                        n.id = x
+                blk.remove(st)
+                changed = True
+    return changed
+
+
 def _retarget_tuple_defs(fn: ast.AST) -> bool:
     """`t = (A, B)` .. `x, y = t` (t bound once and read only there, x / y not mentioned in between, same block): the tuple is
     built for x, y - `x, y = (A, B)` at the place of the definition.  Also `d = {..}` .. `e = d`.  Returns True if anything changed."""
@@ -1106,22 +1143,25 @@ class Inliner:
             _DRI(ast.Module(body=[new], type_ignores=[]))
             if _splat_literal_tuples(ast.Module(body=[new], type_ignores=[])):
                 new.body = self.expand_block(fi, new.body, 0)
-            objs = self._find_objs(fi, new.body)
-            if objs:
-                self.objs = objs
-                body2 = self.expand_block(fi, copy.deepcopy(new.body), 0)
-                # only if every method call on the objects could be expanded (no `v.m(..)` call is left) are the fields promoted
-                left = [n for b_ in body2 for n in ast.walk(b_) if isinstance(n, ast.Call) and isinstance(n.func, ast.Attribute) and isinstance(n.func.value, ast.Name)
-                        and n.func.value.id in objs and self.prog.lookup_method(objs[n.func.value.id], n.func.attr) is not None]
-                # ... and no property of theirs is still read as an attribute (it would be mistaken for a field)
-                left += [n for b_ in body2 for n in ast.walk(b_) if isinstance(n, ast.Attribute) and isinstance(n.value, ast.Name) and n.value.id in objs
-                         and getattr(self.prog.lookup_method(objs[n.value.id], n.attr), "is_property", False)]
-                if not left:
-                    new.body = self._fields_to_locals(body2, objs)
-                    for ci in objs.values():
-                        for m in ci.methods.values():
-                            self.expanded[m.qualname] = self.expanded.get(m.qualname, 0) + 1
-                self.objs = {}
+            def dissolve_objs():
+                _merge_alias_temps(new)
+                objs = self._find_objs(fi, new.body)
+                if objs:
+                    self.objs = objs
+                    body2 = self.expand_block(fi, copy.deepcopy(new.body), 0)
+                    # only if every method call on the objects could be expanded (no `v.m(..)` call is left) are the fields promoted
+                    left = [n for b_ in body2 for n in ast.walk(b_) if isinstance(n, ast.Call) and isinstance(n.func, ast.Attribute) and isinstance(n.func.value, ast.Name)
+                            and n.func.value.id in objs and self.prog.lookup_method(objs[n.func.value.id], n.func.attr) is not None]
+                    # ... and no property of theirs is still read as an attribute (it would be mistaken for a field)
+                    left += [n for b_ in body2 for n in ast.walk(b_) if isinstance(n, ast.Attribute) and isinstance(n.value, ast.Name) and n.value.id in objs
+                             and getattr(self.prog.lookup_method(objs[n.value.id], n.attr), "is_property", False)]
+                    if not left:
+                        new.body = self._fields_to_locals(body2, objs)
+                        for ci in objs.values():
+                            for m in ci.methods.values():
+                                self.expanded[m.qualname] = self.expanded.get(m.qualname, 0) + 1
+                    self.objs = {}
+            dissolve_objs()
             if ast.dump(new) != before:
                 from .model import _SplitTupleAssign, _dissolve_records_in
                 _dissolve_records_in(ast.Module(body=[new], type_ignores=[]))
@@ -1146,6 +1186,11 @@ class Inliner:
                     _slt(ast.Module(body=[new], type_ignores=[]))
                     if ast.dump(new) == d0:
                         break
+                # an object a factory helper built and returned under a temporary name is only now bound to its own name
+                if _merge_alias_temps(new):
+                    dissolve_objs()
+                    new = _SplitTupleAssign().visit(new)
+                    _propagate_copies(new)
                 from .model import _sink_returns, _unflag_loops, _inline_branch_flags
                 _inline_branch_flags(ast.Module(body=[new], type_ignores=[]))
                 _sink_returns(ast.Module(body=[new], type_ignores=[]))
